@@ -11,7 +11,6 @@ import (
 	"net/http"
 	"net/textproto"
 	"net/url"
-	"path"
 	"runtime"
 	"strconv"
 	"strings"
@@ -53,7 +52,7 @@ func (ch *Channel) Invoke(ctx context.Context, methodName string, req, resp inte
 	copts := internal.GetCallOptions(opts)
 
 	reqUrl := *ch.BaseURL
-	reqUrl.Path = path.Join(reqUrl.Path, methodName)
+	reqUrl.Path = methodPath(reqUrl.Path, methodName)
 	reqUrlStr := reqUrl.String()
 	ctx, err := internal.ApplyPerRPCCreds(ctx, copts, reqUrlStr, reqUrl.Scheme == "https")
 	if err != nil {
@@ -124,7 +123,7 @@ func (ch *Channel) NewStream(ctx context.Context, desc *grpc.StreamDesc, methodN
 	copts := internal.GetCallOptions(opts)
 
 	reqUrl := *ch.BaseURL
-	reqUrl.Path = path.Join(reqUrl.Path, methodName)
+	reqUrl.Path = methodPath(reqUrl.Path, methodName)
 	reqUrlStr := reqUrl.String()
 	ctx, err := internal.ApplyPerRPCCreds(ctx, copts, reqUrlStr, reqUrl.Scheme == "https")
 	if err != nil {
@@ -154,6 +153,14 @@ func (ch *Channel) NewStream(ctx context.Context, desc *grpc.StreamDesc, methodN
 	runtime.SetFinalizer(ret, func(*clientStreamWrapper) { cancel() })
 
 	return ret, nil
+}
+
+// methodPath returns the URL path of the named method below the given base
+// path. The method name is appended as it is: cleaning the result (as
+// path.Join does) would make names such as "/a/../svc/Method" or
+// "/svc//Method" reach the handler of "/svc/Method".
+func methodPath(basePath, methodName string) string {
+	return strings.TrimSuffix(basePath, "/") + "/" + strings.TrimPrefix(methodName, "/")
 }
 
 type clientStreamWrapper struct {
